@@ -27,6 +27,7 @@ MAP = [  # (key in commit subject, id, properties, what it needs to manifest)
     ("TECMP CAN payloads whose data length", "T3", ["C02", "C15"], "a TECMP CAN message whose length byte exceeds the bytes present"),
     ("TECMP LIN payloads whose data length", "T4", ["C02", "C15"], "a TECMP LIN message whose length byte exceeds the bytes present"),
     ("capture-module status payloads shorter", "T5", ["C02", "C15"], "a TECMP capture-module status message with fewer than 18 payload bytes"),
+    ("compares the real payload sizes", "Q3", ["C14"], "two packets whose different payloads are both a multiple of 65536 bytes long (the 16-bit wire length reads 0)"),
     ("pad the stream-id count in size_t", "G1", ["C13"], "an interface status payload with 65535 stream ids (the largest list the API admits): the padded count wraps to 0 in 16 bits"),
     ("getCrc requires all three CRC bytes", "T6", ["C02"], "a TECMP CAN message with 1 or 2 bytes behind the data"),
 ]
